@@ -51,6 +51,17 @@ pub fn load(name: &str, k: u16) -> Result<Big, String> {
         "synthetic:pairs13" => BooleanNetwork::try_from(pairs(13).as_str())?,
         // 32 frozen variables: AND_i (a_i <=> b_i) has ~2^17 BDD nodes (variables ordered a00..a15, b00..b15)
         "synthetic:pairs16" => BooleanNetwork::try_from(pairs(16).as_str())?,
+        // the same 32 frozen variables plus two rising chains c0 -> c1 -> c2 -> c3 and z3 -> z2 -> z1 -> z0 (causal order
+        // along and against the alphabetical variable order): reachability needs several sweeps over the variables
+        "synthetic:pairs16chains" => {
+            let mut s = pairs(16);
+            s.push_str("c0 -> c0\n$c0: c0\nz3 -> z3\n$z3: z3\n");
+            for i in 1..4 {
+                s.push_str(&format!("c{} -> c{i}\nc{i} -> c{i}\n$c{i}: c{i} | c{}\n", i - 1, i - 1));
+                s.push_str(&format!("z{} -> z{}\nz{} -> z{}\n$z{}: z{} | z{}\n", 4 - i, 3 - i, 3 - i, 3 - i, 3 - i, 3 - i, 4 - i));
+            }
+            BooleanNetwork::try_from(s.as_str())?
+        }
         // 44 variables (a 4-stage rising chain c0..c3 that only moves when all 14 zero-arity parameters
         // are true, plus 40 frozen inputs): 2^58 (state, colour) pairs, 2^44 states per colour, and
         // dynamics that differ from "frozen" in exactly one of the 16 384 colours
